@@ -206,7 +206,7 @@ Proof.
   eapply safe_bind; [exact Hattr|]. cbn beta. intros b [Hb1 Hb2]. destruct b.
   - (* attribute *)
     eapply safe_bind; [apply shift_attribute_spec; [exact Hc|exact Hw1|apply Hb1; reflexivity]|]. cbn beta.
-    intros [v l'] (t & T1 & T2 & T3 & T4 & T5 & T6 & T7 & T8 & T9 & T10 & T11 & T12).
+    intros [v l'] (_ & t & T1 & T2 & T3 & T4 & T5 & T6 & T7 & T8 & T9 & T10 & T11 & T12).
     cbn [fst snd safe step_post lz intag lerr ltext lattr lhas] in *.
     rewrite A2, Hclean in T5.
     split; [split; [exact T9|left; exact T7]|].
